@@ -1,145 +1,360 @@
 import Upd.Index
-/-! scratch pilot: indexIngest (internal/store/store.go:155-358): fallback-tag conversion and child scan, memory store -/
+/-!
+# indexIngest (internal/store/store.go) — fallback-tag conversion and child scan
+
+Model of `indexIngest` (store.go:155-304), `indexValidReferrer` (306-358), `referrerListDedup` (372-389) and
+`repoGetIndex` (530-542) over the string-typed `Upd.Index` (types/manifest.go), as called from
+`memRepo.repoInit` (mem.go:495) and `dirRepo.indexLoad` (dir.go:547).  The referrers API is enabled (C17 is about
+the conversion); schema version / media type normalisation is not modelled.
+
+The code is mirrored **as repaired** (patches/F23-*, patches/F30-*, and the lock repair F21 which is invisible here):
+* F23: an adopted fallback index is remembered in `referrerResponse`, so that a later fallback index or a
+  regenerated response for the same subject is merged with it instead of replacing it;
+* F30: `BlobCreate` answering "exists" for the regenerated response is not an error.
+
+Go iterates over `addResp` (a map) in an unspecified order: `ingest` takes the order as the parameter `order`.
+Digests are tokens; an index-shaped document written by the conversion is named by its structure (`idxName`),
+which is how "equal bytes ⇒ equal digest" appears in the model.
+-/
 namespace Upd
 
+/-- what a blob is, as far as `indexIngest` can observe it -/
 inductive INode
-  | man (subj mtField cfgMt atype rann : String) (len : Nat)
+  /-- a JSON manifest: `subject.digest` ("" = none), `mediaType` field, `config.mediaType` (none = no config object),
+      `artifactType`, annotations (canonical string), byte length, and — for an index — its `manifests` -/
+  | man (subj mtField : String) (cfg : Option String) (atype rann : String) (len : Nat) (kids : Option (List Desc))
+  /-- an index document without subject (a fallback index, a referrers response, an ordinary image index) -/
   | idx (ds : List Desc)
-  | idxnil                      -- JSON object without a "manifests" array
+  /-- a JSON object without a `manifests` array -/
+  | idxnil
+  /-- not JSON -/
   | raw
   deriving Repr
 
 structure IState where
   index : Index := {}
+  /-- `index.Annotations["org.olareg.referrer.convert"] == "true"` -/
+  converted : Bool := false
   blobs : List (String × INode) := []
-  newBlobs : List String := []
   deriving Repr
 
 def fmtD (d : Desc) : String := s!"{d.dig}/{d.mt}/{d.size}/{d.atype}/{d.rann}"
 /-- structural name (= digest token) of an index-shaped document -/
 def idxName (ds : List Desc) : String := "I(" ++ ",".intercalate (ds.map fmtD) ++ ")"
 
-def IState.blob (s : IState) (dig : String) : Option INode := (s.blobs.find? (·.1 = dig)).map (·.2)
+def lookup (bs : List (String × INode)) (dig : String) : Option INode := (bs.find? (·.1 = dig)).map (·.2)
 
-/-- repoGetIndex: none = error; some none = decoded but Manifests is nil -/
-def getIndex (s : IState) (dig : String) : Option (Option (List Desc)) :=
-  match s.blob dig with
+/-- repoGetIndex: none = error; some none = decoded but `Manifests` is nil -/
+def getIndex (bs : List (String × INode)) (dig : String) : Option (Option (List Desc)) :=
+  match lookup bs dig with
   | some (.idx ds) => some (some ds)
   | some .idxnil => some none
-  | some (.man ..) => some none        -- an image manifest decodes as an index with nil Manifests
+  | some (.man _ _ _ _ _ _ kids) => some kids
   | _ => none
 
-def isFallbackTag (t : String) : Bool := t.startsWith "fb"
-def annCount (rann : String) : Nat := if rann = "" then 0 else (rann.splitOn ";").length
+/-- referrerTagRe; the tokens of fallback tags start with "fb" (written so that the kernel can evaluate it) -/
+def isFallbackTag (t : String) : Bool := t.toList.take 2 == ['f', 'b']
+def isIndexMt (mt : String) : Bool := mt = "ocii" ∨ mt = "dockl"
+
+/-! ## indexValidReferrer -/
 
 structure VR where
-  valid : Bool
-  subject : String
-  resp : List (String × List Desc)     -- subject ↦ descriptors, in first-appearance order of subjects
+  valid : Bool := true
+  subject : String := ""
+  /-- subject ↦ descriptors, keys in first-appearance order -/
+  resp : List (String × List Desc) := []
+  deriving Repr
 
 def addTo (m : List (String × List Desc)) (k : String) (d : List Desc) : List (String × List Desc) :=
-  if m.any (·.1 = k) then m.map fun (k', v) => if k' = k then (k', v ++ d) else (k', v) else m ++ [(k, d)]
+  if m.any (·.1 = k) then m.map fun kv => if kv.1 = k then (kv.1, kv.2 ++ d) else kv else m ++ [(k, d)]
 
-/-- indexValidReferrer -/
-def validReferrer (s : IState) (ds : List Desc) : VR :=
-  let r := ds.foldl (fun (acc : VR) d =>
-    match s.blob d.dig with
-    | some (.man subj mtField cfgMt atype rann len) =>
-      if subj = "" then { acc with valid := false } else
-      let rd : Desc := { d with mt := if mtField ≠ "" then mtField else d.mt, size := len,
-                                atype := if atype ≠ "" then atype else cfgMt, rann := rann }
-      let (subject, valid) :=
-        if acc.subject = "" then (subj, acc.valid) else if acc.subject ≠ subj then (acc.subject, false) else (acc.subject, acc.valid)
-      let valid := if valid then
-          !(d.mt ≠ rd.mt ∨ d.size ≠ rd.size ∨ d.atype ≠ rd.atype ∨ annCount d.rann ≠ annCount rd.rann) ∧ d.rann = rd.rann
-        else false
-      { valid := valid, subject := subject, resp := addTo acc.resp subj [rd] }
-    | some (.idx _) | some .idxnil => { acc with valid := false }   -- parses, but has no subject
-    | _ => { acc with valid := false }) { valid := true, subject := "", resp := [] }
+/-- types.ManifestReferrerDescriptor: the descriptor a referrers response must list for manifest `d.dig` -/
+def refDesc (d : Desc) (mtField : String) (cfg : Option String) (atype rann : String) (len : Nat) : Desc :=
+  { d with mt := if mtField ≠ "" then mtField else d.mt, size := len,
+           atype := if atype ≠ "" then atype else match cfg with | some c => c | none => d.atype,
+           rann := rann }
+
+def vrStep (bs : List (String × INode)) (acc : VR) (d : Desc) : VR :=
+  match lookup bs d.dig with
+  | some (.man subj mtField cfg atype rann len _) =>
+    if subj = "" then { acc with valid := false } else
+    let rd := refDesc d mtField cfg atype rann len
+    let v1 := acc.valid && (acc.subject = "" || acc.subject = subj)
+    let v2 := v1 && (d.mt = rd.mt && d.size = rd.size && d.atype = rd.atype && d.rann = rd.rann)
+    { valid := v2, subject := if acc.subject = "" then subj else acc.subject, resp := addTo acc.resp subj [rd] }
+  | _ => { acc with valid := false }     -- missing, not JSON, or no subject: dropped from the response
+
+def validReferrer (bs : List (String × INode)) (ds : List Desc) : VR :=
+  let r := ds.foldl (vrStep bs) {}
   if r.valid then r else { r with subject := "" }
 
-def dedup (ds : List Desc) : List Desc :=
-  -- referrerListDedup: keep first occurrence, swap-remove later ones (order changes!)
-  let rec go (fuel : Nat) (i : Nat) (rl : List Desc) (seen : List String) : List Desc :=
-    match fuel with
-    | 0 => rl
-    | fuel+1 =>
-      match rl[i]? with
-      | none => rl
-      | some d =>
-        if seen.contains d.dig then
-          go fuel i (match rl.getLast? with | some x => (rl.set i x).dropLast | none => rl) seen
-        else go fuel (i+1) rl (d.dig :: seen)
-  go (ds.length * 2 + 2) 0 ds []
+/-! ## referrerListDedup: keep the first occurrence of a digest, swap-remove later ones -/
 
-structure IOut where
-  st : IState
-  mod : Bool
-  err : Bool
+theorem swapRemove_length (l : List Desc) (i : Nat) (h : i < l.length) : (swapRemove l i).length = l.length - 1 := by
+  unfold swapRemove
+  cases hl : l.getLast? with
+  | none =>
+    have : l = [] := by simpa using hl
+    subst this; simp at h
+  | some x => simp
 
-/-- the conversion branch and the child scan; `order` permutes the subjects whose responses are regenerated (Go map order) -/
-def ingest (s : IState) : IOut := Id.run do
-  let mut s := s
-  -- first pass over the manifests
-  let mut seen : List String := []
-  let mut scan : List Desc := []
-  let mut respOf : List (String × Desc) := []
-  let mut digestTags : List Desc := []
-  for desc in s.index.manifests do
-    seen := desc.dig :: seen
-    if desc.mt = "ocii" ∧ !desc.ann.isNil then
-      if isFallbackTag desc.ann.tag then digestTags := digestTags ++ [desc]
-      if desc.ann.subj ≠ "" then
-        respOf := (respOf.filter (·.1 ≠ desc.ann.subj)) ++ [(desc.ann.subj, desc)]
-    if desc.mt = "ocii" ∨ desc.mt = "dockl" then scan := scan ++ [desc]
-  -- conversion
-  let mut addResp : List (String × List Desc) := []
-  let mut rm : List Desc := []
-  for desc in digestTags do
-    match getIndex s desc.dig with
-    | none => continue
-    | some none => continue
-    | some (some cur) =>
-      let vr := validReferrer s cur
-      let mut valid := vr.valid
-      if valid then
-        match respOf.find? (·.1 = vr.subject) with
-        | some (_, r) => if r.dig ≠ desc.dig then valid := false
-        | none => pure ()
-      if valid then
-        s := { s with index := addDesc s.index { desc with ann := { isNil := false, subj := vr.subject } } }
-      else
-        for (k, v) in vr.resp do addResp := addTo addResp k v
-        rm := rm ++ [desc]
-  for (subj, list0) in addResp do
-    let mut list := list0
-    match respOf.find? (·.1 = subj) with
-    | some (_, r) => match getIndex s r.dig with
-      | some (some old) => list := list ++ old
-      | _ => pure ()
-    | none => pure ()
-    let ds := dedup list
-    let name := idxName ds
-    if (s.blob name).isSome then return { st := s, mod := true, err := true }     -- BlobCreate: exists ⇒ error
-    s := { s with blobs := s.blobs ++ [(name, .idx ds)], newBlobs := s.newBlobs ++ [name] }
-    s := { s with index := addDesc s.index { mt := "ocii", dig := name, size := 0, ann := { isNil := false, subj := subj } } }
-  for d in rm do
-    s := { s with index := rmDesc s.index d }
-  -- child scan (breadth first)
-  let mut fuel := s.blobs.length * 4 + scan.length + 4
-  while fuel > 0 ∧ !scan.isEmpty do
-    fuel := fuel - 1
-    match scan with
-    | [] => break
-    | c :: rest =>
-      scan := rest
-      match getIndex s c.dig with
-      | some (some kids) =>
-        for k in kids do
-          if !seen.contains k.dig then
-            s := { s with index := { s.index with children := s.index.children ++ [k] } }
-            if k.mt = "ocii" ∨ k.mt = "dockl" then scan := scan ++ [k]
-            seen := k.dig :: seen
-      | _ => pure ()
-  return { st := s, mod := true, err := false }
+def dedupGo (rl : List Desc) (i : Nat) (seen : List String) : List Desc :=
+  if h : i < rl.length then
+    if seen.contains rl[i].dig then dedupGo (swapRemove rl i) i seen
+    else dedupGo rl (i + 1) (rl[i].dig :: seen)
+  else rl
+termination_by rl.length - i
+decreasing_by
+  · rw [swapRemove_length rl i h]; omega
+  · omega
+
+def dedup (ds : List Desc) : List Desc := dedupGo ds 0 []
+
+/-! ## first loop over the manifests -/
+
+structure P1 where
+  seen : List String := []
+  scan : List Desc := []
+  /-- referrerResponse, newest binding first -/
+  respOf : List (String × Desc) := []
+  digestTags : List Desc := []
+  deriving Repr
+
+def p1Step (a : P1) (desc : Desc) : P1 :=
+  let a1 : P1 := { a with seen := desc.dig :: a.seen }
+  let a2 : P1 := if desc.mt = "ocii" ∧ desc.ann.isNil = false then
+      let a' : P1 := if isFallbackTag desc.ann.tag then { a1 with digestTags := a1.digestTags ++ [desc] } else a1
+      if desc.ann.subj ≠ "" then { a' with respOf := (desc.ann.subj, desc) :: a'.respOf } else a'
+    else a1
+  if isIndexMt desc.mt then { a2 with scan := a2.scan ++ [desc] } else a2
+
+def pass1 (ms : List Desc) : P1 := ms.foldl p1Step {}
+
+def lookupResp (m : List (String × Desc)) (k : String) : Option Desc := (m.find? (·.1 = k)).map (·.2)
+
+/-! ## the conversion -/
+
+structure Conv where
+  index : Index
+  respOf : List (String × Desc)
+  addResp : List (String × List Desc) := []
+  rm : List Desc := []
+  deriving Repr
+
+/-- the descriptor of an adopted fallback index / of a regenerated response in index.json -/
+def respEntry (mt dig : String) (size : Nat) (subj : String) : Desc :=
+  { mt := mt, dig := dig, size := size, ann := { isNil := false, subj := subj } }
+
+/-- one fallback tag: adopt its index as the response of its subject, or queue its content for regeneration -/
+def convStep (bs : List (String × INode)) (c : Conv) (desc : Desc) : Conv :=
+  match getIndex bs desc.dig with
+  | some (some cur) =>
+    let vr := validReferrer bs cur
+    let agrees := match lookupResp c.respOf vr.subject with
+      | some r => decide (r.dig = desc.dig)
+      | none => true
+    if vr.valid && agrees then
+      let nd := respEntry desc.mt desc.dig desc.size vr.subject
+      { c with index := addDesc c.index nd, respOf := (vr.subject, nd) :: c.respOf }
+    else
+      { c with addResp := vr.resp.foldl (fun m kv => addTo m kv.1 kv.2) c.addResp, rm := c.rm ++ [desc] }
+  | _ => c
+
+/-- the content of the response currently recorded for `subj` (nothing if there is none or it cannot be read) -/
+def oldContent (bs : List (String × INode)) (respOf : List (String × Desc)) (subj : String) : List Desc :=
+  match lookupResp respOf subj with
+  | some r => match getIndex bs r.dig with
+    | some (some o) => o
+    | _ => []
+  | none => []
+
+/-- one regenerated response: merge with the recorded one, dedup, write the blob (unless it exists), record it -/
+def regenStep (respOf : List (String × Desc)) (s : IState) (kv : String × List Desc) : IState :=
+  let ds := dedup (kv.2 ++ oldContent s.blobs respOf kv.1)
+  let name := idxName ds
+  { s with blobs := if (lookup s.blobs name).isSome then s.blobs else s.blobs ++ [(name, .idx ds)],
+           index := addDesc s.index (respEntry "ocii" name 0 kv.1) }
+
+/-! ## child scan (breadth first) -/
+
+structure Scan where
+  queue : List Desc := []
+  seen : List String := []
+  children : List Desc := []
+  deriving Repr
+
+def kidStep (a : Scan) (k : Desc) : Scan :=
+  if a.seen.contains k.dig then a else
+  { queue := if isIndexMt k.mt then a.queue ++ [k] else a.queue, seen := k.dig :: a.seen, children := a.children ++ [k] }
+
+/-- one iteration of `for len(scanChildren) > 0`; none = the loop has ended -/
+def scanIter (bs : List (String × INode)) (a : Scan) : Option Scan :=
+  match a.queue with
+  | [] => none
+  | c :: rest =>
+    match getIndex bs c.dig with
+    | some (some kids) => some (kids.foldl kidStep { a with queue := rest })
+    | _ => some { a with queue := rest }
+
+/-- every digest that some index-shaped blob lists (with repetitions) -/
+def listed (bs : List (String × INode)) : List String :=
+  bs.flatMap fun kv => match kv.2 with
+    | .idx ds => ds.map (·.dig)
+    | .man _ _ _ _ _ _ (some ks) => ks.map (·.dig)
+    | _ => []
+
+def unseen (bs : List (String × INode)) (seen : List String) : Nat := (listed bs).countP (fun g => !seen.contains g)
+
+/-- the measure that decreases with every iteration of the child scan:
+    twice the listed digests not seen yet, plus the length of the queue -/
+def scanMeasure (bs : List (String × INode)) (a : Scan) : Nat := 2 * unseen bs a.seen + a.queue.length
+
+theorem countP_lt_of {α : Type} (p q : α → Bool) (himp : ∀ y, q y = true → p y = true) (g : α)
+    (hp : p g = true) (hq : q g = false) : ∀ (l : List α), g ∈ l → l.countP q < l.countP p := by
+  intro l
+  induction l with
+  | nil => intro h; cases h
+  | cons x xs ih =>
+    intro hg
+    have hmono : xs.countP q ≤ xs.countP p := List.countP_mono_left (fun y _ hy => himp y hy)
+    rw [List.countP_cons, List.countP_cons]
+    rcases List.mem_cons.mp hg with h | h
+    · subst h
+      rw [hp, hq]; simp; omega
+    · have := ih h
+      cases hqx : q x
+      · cases hpx : p x <;> simp <;> omega
+      · rw [himp x hqx]; simp; omega
+
+theorem notin_cons_imp (seen : List String) (g y : String) (h : (!(g :: seen).contains y) = true) :
+    (!seen.contains y) = true := by
+  cases hc : seen.contains y
+  · rfl
+  · have : (g :: seen).contains y = true := by
+      rw [List.contains_cons, hc]; simp
+    rw [this] at h; cases h
+
+theorem unseen_cons_lt (bs : List (String × INode)) (seen : List String) (g : String)
+    (hg : g ∈ listed bs) (hs : seen.contains g = false) : unseen bs (g :: seen) < unseen bs seen := by
+  unfold unseen
+  apply countP_lt_of (fun y => !seen.contains y) (fun y => !(g :: seen).contains y) (notin_cons_imp seen g) g
+  · simp only [hs]; rfl
+  · have : (g :: seen).contains g = true := by rw [List.contains_cons]; simp
+    simp only [this]; rfl
+  · exact hg
+
+theorem kidStep_measure (bs : List (String × INode)) (a : Scan) (k : Desc) (hk : k.dig ∈ listed bs) :
+    scanMeasure bs (kidStep a k) ≤ scanMeasure bs a := by
+  unfold kidStep
+  cases hc : a.seen.contains k.dig
+  · have hlt := unseen_cons_lt bs a.seen k.dig hk hc
+    simp only [Bool.false_eq_true, if_false]
+    unfold scanMeasure
+    simp only
+    split
+    · simp only [List.length_append, List.length_singleton]; omega
+    · omega
+  · simp only [if_true]; exact Nat.le_refl _
+
+theorem kids_measure (bs : List (String × INode)) : ∀ (kids : List Desc) (a : Scan), (∀ k ∈ kids, k.dig ∈ listed bs) →
+    scanMeasure bs (kids.foldl kidStep a) ≤ scanMeasure bs a := by
+  intro kids
+  induction kids with
+  | nil => intro a _; simp
+  | cons k ks ih =>
+    intro a h
+    simp only [List.foldl_cons]
+    exact Nat.le_trans (ih _ (fun k' hk' => h k' (List.mem_cons_of_mem _ hk')))
+      (kidStep_measure bs a k (h k List.mem_cons_self))
+
+theorem lookup_mem {bs : List (String × INode)} {g : String} {n : INode} (h : lookup bs g = some n) : (g, n) ∈ bs := by
+  unfold lookup at h
+  cases hf : bs.find? (·.1 = g) with
+  | none => simp [hf] at h
+  | some kv =>
+    simp only [hf, Option.map_some, Option.some.injEq] at h
+    have hm := List.mem_of_find?_eq_some hf
+    have hp := List.find?_some hf
+    simp only [decide_eq_true_eq] at hp
+    cases kv with
+    | mk k v => simp only at hp h; subst hp; subst h; exact hm
+
+theorem getIndex_listed {bs : List (String × INode)} {g : String} {kids : List Desc}
+    (h : getIndex bs g = some (some kids)) : ∀ k ∈ kids, k.dig ∈ listed bs := by
+  intro k hk
+  unfold getIndex at h
+  cases hl : lookup bs g with
+  | none => simp [hl] at h
+  | some n =>
+    have hm := lookup_mem hl
+    unfold listed
+    apply List.mem_flatMap.mpr
+    refine ⟨(g, n), hm, ?_⟩
+    cases n with
+    | idx ds =>
+      simp only [hl, Option.some.injEq] at h
+      subst h
+      exact List.mem_map.mpr ⟨k, hk, rfl⟩
+    | idxnil => simp [hl] at h
+    | raw => simp [hl] at h
+    | man a b c d e f ks =>
+      simp only [hl, Option.some.injEq] at h
+      subst h
+      exact List.mem_map.mpr ⟨k, hk, rfl⟩
+
+/-- every iteration of the child scan decreases `scanMeasure` -/
+theorem scanIter_decreases (bs : List (String × INode)) (a a' : Scan) (h : scanIter bs a = some a') :
+    scanMeasure bs a' < scanMeasure bs a := by
+  unfold scanIter at h
+  cases hq : a.queue with
+  | nil => simp [hq] at h
+  | cons c rest =>
+    simp only [hq] at h
+    have hpop : scanMeasure bs { a with queue := rest } < scanMeasure bs a := by
+      unfold scanMeasure; simp [hq]
+    cases hg : getIndex bs c.dig with
+    | none => simp only [hg, Option.some.injEq] at h; subst h; exact hpop
+    | some o =>
+      cases o with
+      | none => simp only [hg, Option.some.injEq] at h; subst h; exact hpop
+      | some kids =>
+        simp only [hg, Option.some.injEq] at h
+        subst h
+        exact Nat.lt_of_le_of_lt (kids_measure bs kids _ (getIndex_listed hg)) hpop
+
+/-- the loop `for len(scanChildren) > 0 { … }`, run to its end -/
+def childScan (bs : List (String × INode)) (a : Scan) : Scan :=
+  match h : scanIter bs a with
+  | none => a
+  | some a' => childScan bs a'
+termination_by scanMeasure bs a
+decreasing_by exact scanIter_decreases bs a a' h
+
+/-! ## indexIngest -/
+
+/-- state after the fallback tags have been examined -/
+def phase1 (x : IState) : Conv :=
+  let p := pass1 x.index.manifests
+  p.digestTags.foldl (convStep x.blobs) { index := x.index, respOf := p.respOf }
+
+/-- the conversion branch of `indexIngest` -/
+def convert (order : List (String × List Desc) → List (String × List Desc)) (x : IState) : IState :=
+  let c := phase1 x
+  let s2 := (order c.addResp).foldl (regenStep c.respOf) { x with index := c.index }
+  { s2 with index := c.rm.foldl rmDesc s2.index, converted := true }
+
+/-- `indexIngest` with the referrers API enabled; `order` is the iteration order of the Go map `addResp` -/
+def ingest (order : List (String × List Desc) → List (String × List Desc)) (x : IState) : IState :=
+  let p := pass1 x.index.manifests
+  let s1 := if x.converted then x else convert order x
+  let sc := childScan s1.blobs { queue := p.scan, seen := p.seen, children := s1.index.children }
+  { s1 with index := { s1.index with children := sc.children } }
+
+/-- `indexIngest` reports a modification (and the directory store saves index.json) exactly when it converted -/
+def ingestMod (x : IState) : Bool := !x.converted
+
+/-- what survives `indexSave` + a later load: an emptied annotation map comes back nil, children are not stored -/
+def persist (x : IState) : IState :=
+  { x with index := { manifests := x.index.manifests.map fun d => if d.ann.len = 0 then { d with ann := {} } else d,
+                      children := [] } }
 end Upd
